@@ -111,6 +111,10 @@ inductive ChatEv where
   | setSubject (actor req cid : Nat) (subject : Bytes)   -- 120
   /-- 105; `cid = none`: field absent or 00 00 00 00 (public chat); `opts`: field 109 if present. -/
   | send (actor req : Nat) (cid : Option Nat) (opts : Option Bytes) (msg : Bytes)
+  /-- an administrator's `HandleSetUser` on an existing account: the session copy of the access bits of every
+      connected client of that account follows the edit (the admin flag follows the access held before).  The
+      handler's own outputs (354, 301, reply) are presence matters, modelled in `Presence.lean`. -/
+  | accessEdit (login access : Bytes)
 deriving Repr, DecidableEq
 
 def ChatEv.actor : ChatEv → Option Nat
@@ -123,6 +127,7 @@ def ChatEv.actor : ChatEv → Option Nat
   | .decline a .. => some a
   | .setSubject a .. => some a
   | .send a .. => some a
+  | .accessEdit .. => none
 
 def ChatEv.req : ChatEv → Nat
   | .login .. => 0
@@ -134,6 +139,7 @@ def ChatEv.req : ChatEv → Nat
   | .decline _ r .. => r
   | .setSubject _ r .. => r
   | .send _ r .. => r
+  | .accessEdit .. => 0
 
 /-- The fields "who I am" that invitations and join notices carry. -/
 def whoFields (c : Client) : List Field := [⟨102, c.name⟩, ⟨103, be16 c.id⟩]
@@ -198,6 +204,16 @@ def stepSend (w : ChatWorld) (c : Client) (req : Nat) (cid : Option Nat) (opts :
   | some id => (w, (w.members id).map fun m => mkTran 106 m.1 [⟨114, be32 id⟩, ⟨101, text⟩])
   | none => (w, (w.reg.clients.filter fun d => accessBit d.access 9).map fun d => mkTran 106 d.id [⟨101, text⟩])
 
+def editClient (login access : Bytes) (d : Client) : Client :=
+  if d.login == login then { d with flags := setFlag d.flags 1 (accessBit d.access 22), access := access } else d
+
+theorem editClient_keys (login access : Bytes) (d : Client) :
+    (editClient login access d).id = d.id ∧ (editClient login access d).conn = d.conn := by
+  unfold editClient; split <;> exact ⟨rfl, rfl⟩
+
+def stepAccessEdit (w : ChatWorld) (login access : Bytes) : ChatWorld × List Out :=
+  ({ w with reg := w.reg.mapKeep (editClient login access) }, [])
+
 /-- One event.  A request from an id nobody holds has no effect (there is no connection to send it). -/
 def ChatWorld.step (w : ChatWorld) (e : ChatEv) : ChatWorld × List Out :=
   match e with
@@ -210,6 +226,7 @@ def ChatWorld.step (w : ChatWorld) (e : ChatEv) : ChatWorld × List Out :=
   | .decline a _ cid => match w.reg.get a with | none => (w, []) | some c => stepDecline w c cid
   | .setSubject a _ cid s => match w.reg.get a with | none => (w, []) | some _ => stepSetSubject w cid s
   | .send a r cid o m => match w.reg.get a with | none => (w, []) | some c => stepSend w c r cid o m
+  | .accessEdit l ac => stepAccessEdit w l ac
 
 /-- Run a history; outputs are kept per event. -/
 def ChatWorld.run (w : ChatWorld) : List ChatEv → ChatWorld × List (List Out)
@@ -301,6 +318,7 @@ theorem ChatWorld.Inv.modifyChat {w : ChatWorld} (h : w.Inv) (cid : Nat) (f : Pr
 
 theorem ChatWorld.step_inv {w : ChatWorld} (h : w.Inv) (e : ChatEv) : (w.step e).1.Inv := by
   cases e with
+  | accessEdit l ac => exact ⟨h.reg.mapKeep _ (fun d => editClient_keys l ac d), h.mem⟩
   | login l an ac nm ic =>
     simp only [ChatWorld.step, stepLogin]
     split
@@ -606,6 +624,7 @@ theorem ChatWorld.traffic_to_members (w : ChatWorld) (e : ChatEv) (hwf : e.WF) (
   have inj : ∀ c', e.chatId = some c' → be32 c' = be32 cid → c' = cid :=
     fun c' hc' hb => be32_inj (hwf c' hc') hcid hb
   cases e with
+  | accessEdit l ac => simp only [ChatWorld.step, stepAccessEdit] at ho; cases ho
   | login l an ac nm ic =>
     simp only [ChatWorld.step, stepLogin] at ho
     split at ho <;> cases ho
@@ -736,6 +755,7 @@ theorem ChatWorld.nonmember_preserved (w : ChatWorld) (e : ChatEv) (i cid : Nat)
     (hj : e.joins i cid = false) : i ∉ (w.step e).1.entryIds cid := by
   unfold ChatWorld.entryIds at *
   cases e with
+  | accessEdit l ac => exact hnot
   | login l an ac nm ic =>
     simp only [ChatWorld.step, stepLogin]
     split
@@ -915,6 +935,15 @@ theorem ChatWorld.Fresh.modifyChat {w : ChatWorld} (hf : w.Fresh) (hw : w.Inv) (
 theorem ChatWorld.step_fresh {w : ChatWorld} (hf : w.Fresh) (hw : w.Inv) (e : ChatEv) (hc : w.reg.counter + 1 < 65536) :
     (w.step e).1.Fresh ∧ (w.step e).1.reg.counter ≤ w.reg.counter + 1 := by
   cases e with
+  | accessEdit l ac =>
+    refine ⟨⟨?_, hf.mem, ?_⟩, Nat.le_succ _⟩
+    · intro x hx
+      obtain ⟨d, hd, rfl⟩ := List.mem_map.mp hx
+      rw [(editClient_keys l ac d).1]; exact hf.live d hd
+    · intro ch hch m hm x hx hxid
+      obtain ⟨d, hd, rfl⟩ := List.mem_map.mp hx
+      rw [(editClient_keys l ac d).1] at hxid
+      rw [(editClient_keys l ac d).2]; exact hf.nsr ch hch m hm d hd hxid
   | login l an ac nm ic =>
     simp only [ChatWorld.step, stepLogin]
     have hfree : w.reg.used (w.reg.counter + 1) = false := by
@@ -1093,6 +1122,14 @@ theorem ChatWorld.EntOK.modifyChat {w : ChatWorld} (he : w.EntOK) (hw : w.Inv) (
 
 theorem ChatWorld.step_entOK {w : ChatWorld} (hw : w.Inv) (he : w.EntOK) (e : ChatEv) : (w.step e).1.EntOK := by
   cases e with
+  | accessEdit l ac =>
+    intro ch hch m hm
+    have ho := he ch hch m hm
+    refine ⟨ho.1, ?_⟩
+    intro x hx hxc
+    obtain ⟨d, hd, rfl⟩ := List.mem_map.mp hx
+    rw [(editClient_keys l ac d).2] at hxc
+    rw [(editClient_keys l ac d).1]; exact ho.2 d hd hxc
   | login l an ac nm ic =>
     simp only [ChatWorld.step, stepLogin]
     split
@@ -1192,6 +1229,7 @@ theorem ChatWorld.entries_step (w : ChatWorld) (e : ChatEv) (cid : Nat) {m : Nat
     (hm : m ∈ (w.step e).1.entries cid) :
     m ∈ w.entries cid ∨ ∃ a c, w.reg.get a = some c ∧ m = (c.id, c.conn) ∧ e.joins a cid = true := by
   cases e with
+  | accessEdit l ac => exact Or.inl hm
   | login l an ac nm ic =>
     simp only [ChatWorld.step, stepLogin] at hm
     split at hm <;> exact Or.inl hm
@@ -1283,14 +1321,20 @@ theorem ChatWorld.entries_step (w : ChatWorld) (e : ChatEv) (cid : Nat) {m : Nat
       · exact Or.inl hm
       · split at hm <;> exact Or.inl hm
 
-/-- What an event can do to the client table: connected clients stay what they were, or are new
-    connections with the next serial. -/
+/-- What an event can do to the client table: a connected client keeps its id and connection (its other
+    fields may be edited), or it is a new connection with the next serial. -/
 theorem ChatWorld.clients_step (w : ChatWorld) (hw : w.Inv) (e : ChatEv) :
     w.reg.serial ≤ (w.step e).1.reg.serial ∧
-    ∀ x ∈ (w.step e).1.reg.clients, x ∈ w.reg.clients ∨ x.conn = w.reg.serial := by
-  have same : w.reg.serial ≤ w.reg.serial ∧ ∀ x ∈ w.reg.clients, x ∈ w.reg.clients ∨ x.conn = w.reg.serial :=
-    ⟨Nat.le_refl _, fun x hx => Or.inl hx⟩
+    ∀ x ∈ (w.step e).1.reg.clients, (∃ y ∈ w.reg.clients, y.id = x.id ∧ y.conn = x.conn) ∨ x.conn = w.reg.serial := by
+  have same : w.reg.serial ≤ w.reg.serial ∧
+      ∀ x ∈ w.reg.clients, (∃ y ∈ w.reg.clients, y.id = x.id ∧ y.conn = x.conn) ∨ x.conn = w.reg.serial :=
+    ⟨Nat.le_refl _, fun x hx => Or.inl ⟨x, hx, rfl, rfl⟩⟩
   cases e with
+  | accessEdit l ac =>
+    refine ⟨Nat.le_refl _, ?_⟩
+    intro x hx
+    obtain ⟨d, hd, rfl⟩ := List.mem_map.mp hx
+    exact Or.inl ⟨d, hd, (editClient_keys l ac d).1.symm, (editClient_keys l ac d).2.symm⟩
   | login l an ac nm ic =>
     simp only [ChatWorld.step, stepLogin]
     split
@@ -1301,12 +1345,12 @@ theorem ChatWorld.clients_step (w : ChatWorld) (hw : w.Inv) (e : ChatEv) :
       intro x hx
       rcases (hmem x).mp hx with rfl | hx0
       · exact Or.inr hconn
-      · exact Or.inl hx0
+      · exact Or.inl ⟨x, hx0, rfl, rfl⟩
   | disconnect a =>
     simp only [ChatWorld.step]
     split
     · exact same
-    · exact ⟨Nat.le_refl _, fun x hx => Or.inl (List.mem_filter.mp hx).1⟩
+    · exact ⟨Nat.le_refl _, fun x hx => Or.inl ⟨x, (List.mem_filter.mp hx).1, rfl, rfl⟩⟩
   | inviteNew a r t c' =>
     simp only [ChatWorld.step]
     split
@@ -1354,8 +1398,8 @@ theorem ChatWorld.Outside.step {w : ChatWorld} (hw : w.Inv) {k i cid : Nat} (h :
       rw [← hc.2, this, hj] at hja
       cases hja
   · intro x hx hxk
-    rcases hcl x hx with hx0 | hnew
-    · exact h.holds x hx0 hxk
+    rcases hcl x hx with ⟨y, hy, hyid, hyc⟩ | hnew
+    · rw [← hyid]; exact h.holds y hy (by rw [hyc]; exact hxk)
     · have := h.known; omega
 
 /-- Chat traffic of `cid` is never routed to a connection that has no entry in that chat's map. -/
